@@ -105,13 +105,21 @@ def main(argv):
             pool.append(("sync", viewgen.sx_state(st), viewgen.sx_view(v)))
         for _ in range(rng.randint(1, 3)):
             vs = rng.choice(shapes)
-            av = vs[0] if len(vs) == 1 else ("el", "main", vs)
+            av = susrender.real_view(vs)
             gs = sorted(set(g for x in vs for g in susrender.gates(x)))
             sched = rng.sample(gs, len(gs))
             if rng.random() < 0.3 and sched:
                 sched = sched[:-1]                    # a render left with pending tasks
             pool.append(("sus", rng.choice(["sync", "blocking", "streaming"]), susrender.sx(av), "(%s)" % " ".join(map(str, sched))))
         mixed.append([rng.choice(pool) for _ in range(rng.randint(3, 6))])
+    # every view family in every mode at least once, each rendered twice with another render in between
+    for vs in shapes:
+        av = susrender.real_view(vs)
+        gs = sorted(set(g for x in vs for g in susrender.gates(x)))
+        for mode in ("sync", "blocking", "streaming"):
+            e = ("sus", mode, susrender.sx(av), "(%s)" % " ".join(map(str, gs)))
+            other = ("sus", rng.choice(["blocking", "streaming"]), susrender.sx(susrender.real_view(rng.choice(shapes))), "()")
+            mixed.append([e, other, e])
     text = "\n".join("(seq %s)" % " ".join("(%s)" % " ".join(e) for e in s) for s in mixed) + "\n"
     rc, so, se = vlib.run_driver(binp, text)
     mblocks = so.rstrip("\n").split("\n==\n")
@@ -143,6 +151,9 @@ def main(argv):
             hks = [tuple(int(x) for x in m.split(".")) for m in re.findall(r' data-hk="(\d+\.\d+)"', out)]
             if len(set(hks)) != len(hks):
                 mfail.append({"what": "hydration keys not unique within one render", "render": " ".join(e), "keys": hks})
+            sks = re.findall(r'<suspense-start data-key="(\d+)"', out)
+            if len(set(sks)) != len(sks):
+                mfail.append({"what": "suspense keys not unique within one render", "render": " ".join(e), "keys": sks})
             for sc in set(k[0] for k in hks):
                 els = sorted(k[1] for k in hks if k[0] == sc)
                 if els != list(range(len(els))):
